@@ -194,6 +194,9 @@ def big_documents(thorough=False):
                 "\n  Given a\n   | c\x0cd | e\u2029f |\n  When b\n"))
     out.append(("same-length-rows-different-cells", "Feature: f\n Scenario: s\n  Given t\n   | name  | value |\n   | a | b | c     |\n"))
     out.append(("same-length-rows-same-cells", "Feature: f\n Scenario: s\n  Given t\n   | name  | value |\n   | a|b   | c|d|e |\n   | a\\|b  | c     |\n  And u\n   | 1 | 2 |\n   | 3 | 4 |\n   |11|22 |\n"))
+    for n in (4095, 4096, 4097, 4200):
+        out.append(("examples-%d-columns" % n, "Feature: f\n Scenario Outline: o <c0> <c%d>\n  Given <c1> and <c%d> and <c%d>\n  Examples:\n   |" % (n - 1, n - 1, n // 2) +
+                    "".join(" c%d |" % i for i in range(n)) + "\n   |" + "".join(" v%d |" % i for i in range(n)) + "\n Scenario Outline: p\n  Given <x> <y>\n  Examples:\n   | x | y |\n   | 1 | 2 |\n"))
     out.append(("unexpected-line-over-2MiB", "Feature: f\n Scenario: s\n  Given x\n   | a |\n" + "y" * (2200 * 1024) + "\n  And more\n also unexpected\n  Then z\n"))
     out.append(("examples-headers-recur", "Feature: f\n Background:\n  Given bg\n Scenario Outline: o <a> <b>\n  Given <a> <b>\n  Examples:\n   | a | b |\n   | 1 | 2 |\n  Examples:\n   | b | a |\n   | 3 | 4 |\n  Examples: header only\n   | a | b |\n  Examples:\n   | a | b |\n   | 5 | 6 |\n  Examples:\n   | b | a |\n   | 7 | 8 |\n"))
     for n in (20, 21, 22, 40):
